@@ -379,3 +379,16 @@ package mobius
 //@   before call (hotline.AccountManager).Update assert isnil(pw) ==> arg1.Password == callres("hotline.HashAndSalt#2")
 //@   before call (hotline.AccountManager).Update assert !isnil(pw) && !(len(pw) == 1 && pw[0] == 0) ==> arg1.Password == callres("hotline.HashAndSalt#2")
 //@   before call (hotline.AccountManager).Update assert arg2 == arg1.Login && arg1.Login == callres("(hotline.AccountManager).Get").Login
+
+// ---------------------------------------------------------------------------------
+// C18: creating a category or bundle never replaces an existing item (which would discard its
+// articles): when the name is taken at that path the call fails and the item is untouched; when it
+// is free, the new item carries the requested name and type.  The tree is touched under the mutex.
+
+//@ func (n *ThreadedNewsYAML) CreateGrouping(newsPath []string, name string, t [2]byte) (err error)
+//@   property C18
+//@   let cats := callres("(*mobius.ThreadedNewsYAML).getCatByPath")
+//@   ensures has_old(cats, name) ==> err != nil && get(cats, name) == get_old(cats, name)
+//@   ensures !has_old(cats, name) ==> has(cats, name) && get(cats, name).Name == name && get(cats, name).Type == t
+//@   before call (*mobius.ThreadedNewsYAML).writeFile assert !has_old(cats, name) && locked(n, "mu")
+//@   before call (*mobius.ThreadedNewsYAML).getCatByPath assert locked(n, "mu") && same(arg1, newsPath)
